@@ -1,4 +1,5 @@
 import Okane.Spec.Import
+import Okane.Lemmas.ImportCsvCellsUse
 /-!
 # C17 — rewrite rules and layered configuration resolve as documented
 
@@ -637,5 +638,122 @@ example :
     let t := (Txn.new ⟨2024, 1, 2⟩ "x" ⟨⟨false, 1250, 2⟩, "CHF"⟩).withFragment (extract exCap [] exRec)
     (t.toDoubleEntry "Assets:Bank").map' (fun tr => tr.posts.map fun p => (p.account, p.clear))
       = .ok [("Assets:Bank", .uncleared), ("Income:Unknown", .pending)] := by decide
+
+end Okane.Import
+
+/-! ## The CSV importer with okane's own cell decoder: the rule theorems on one CSV row
+
+The theorems above are about `extract` on an abstract record.  Here they are instantiated for the CSV importer model
+(`Model/ImportCsv.lean`) run with the model of okane's number-cell decoder (`Cells.cellEnv`, `Lemmas/ImportCsvCellsUse.lean`):
+the record the rules look at is (payee, category, secondary commodity) as the field map extracts them from the row, and the
+verdict reaches the transaction and the tree unchanged — whatever the number cells, the conversion block and the charge do. -/
+namespace Okane.Import
+open Okane Okane.Import.Cells
+
+/-- **C17_csv_row.**  For every row the CSV importer model accepts (okane's own number decoder; every date decoder, regex
+engine, configuration, field map): with `r` the record as the CSV matchers see it and `ms` the rules of the configuration
+that match it (`matching`, each rule looking at the payee as rewritten by its predecessors),
+* the counter-account of the transaction is the `account` of the last rule of `ms` that has one (`C17_account`);
+* the transaction is left cleared iff some rule of `ms` assigns an account and is not flagged `pending` (`C17_pending`),
+  otherwise it is marked pending;
+* payee and code are the ones the rule fold produced (`C17_fold`, `C17_payee_code`), the payee falling back to the cell's;
+* in the tree `to_double_entry` builds, the counter-posting — first posting for a negative amount, last otherwise — goes to
+  that account, or to `Expenses:Unknown` / `Income:Unknown` by the sign flag of the amount (which is the amount WRITTEN in
+  the cell under the importer's sign rule, `AmountWritten`), and carries `!` unless the record is cleared. -/
+theorem C17_csv_row (pd : String → Option Date) (cap : Captures) (cfg : CsvCfg) (fm : FieldMap) (rec : List String)
+    (v : RowValues) (txn : Txn) (i : Bool)
+    (hrow : readRow (cellEnv pd cap) cfg fm rec = .ok (some v))
+    (hb : buildTxn (cellEnv pd cap) cfg fm rec v = .ok (txn, i)) :
+    let r := csvRecord v.payee v.category v.secondaryCommodity
+    let ms := matching cap cfg.rewrite r
+    let cleared := ms.any (fun x => x.account.isSome && !x.pending)
+    (fm.extract .payee rec = .ok (some v.payee) ∧ fm.extract .category rec = .ok v.category ∧
+      fm.extract .secondaryCommodity rec = .ok v.secondaryCommodity) ∧
+    txn.destAccount = ms.reverse.findSome? (·.account) ∧
+    txn.clearState = (if cleared then none else some .pending) ∧
+    txn.payee = (extract cap cfg.rewrite r).payee.getD v.payee ∧ txn.code = (extract cap cfg.rewrite r).code ∧
+    AmountWritten fm cfg.accountType rec v.amount ∧
+    ∃ tr p, txn.toDoubleEntry cfg.account = .ok tr ∧
+      tr.payee = (extract cap cfg.rewrite r).payee.getD v.payee ∧ tr.code = (extract cap cfg.rewrite r).code ∧
+      (if v.amount.neg then tr.posts.head? else tr.posts.getLast?) = some p ∧
+      p.account = (ms.reverse.findSome? (·.account)).getD (if v.amount.neg then "Expenses:Unknown" else "Income:Unknown") ∧
+      p.clear = (if cleared then .uncleared else .pending) := by
+  intro r ms cleared
+  obtain ⟨_, _, _, _, hp, hc, hs⟩ := readRow_cells pd cap cfg fm rec v hrow
+  obtain ⟨h1, h2, h3, h4, _, _, h7⟩ := csvRow_rules _ cfg fm rec v txn i hb
+  have hamt := (amount_written pd cap fm cfg.accountType rec v.amount (CellsUse.readRow_amount _ cfg fm rec v hrow)).1
+  have hfrag : rowFragment (cellEnv pd cap) cfg v = extract cap cfg.rewrite r := rfl
+  rw [hfrag] at h1 h2 h3 h4
+  have hacc : (extract cap cfg.rewrite r).account = ms.reverse.findSome? (·.account) := C17_account cap r cfg.rewrite
+  have hcl : (extract cap cfg.rewrite r).cleared = cleared := C17_pending cap r cfg.rewrite
+  rw [hacc] at h3
+  rw [hcl] at h4
+  refine ⟨⟨hp, hc, hs⟩, h3, h4, h1, h2, hamt, ?_⟩
+  have hneg : txn.amount.value.neg = v.amount.neg := by rw [h7]
+  -- the counter-posting's mark
+  have hclear : txn.postClear = (if cleared then ClearState.uncleared else .pending) := by
+    unfold Txn.postClear
+    rw [h4]
+    cases hcv : cleared with
+    | false => simp
+    | true =>
+      have hsome := extract_cleared_account cap r cfg.rewrite (by rw [hcl]; exact hcv)
+      rw [hacc, ← h3] at hsome
+      obtain ⟨a, ha⟩ := Option.isSome_iff_exists.mp hsome
+      simp [ha]
+  cases hn : v.amount.neg with
+  | false =>
+    rw [hn] at hneg
+    refine ⟨_, txn.destPosting "Income:Unknown",
+      by simp [Txn.toDoubleEntry, Txn.postings, Dec.isSignPositive, hneg]; rfl, h1, h2, ?_, ?_, ?_⟩
+    · simp only [Bool.false_eq_true, if_false]
+      rw [← List.cons_append]
+      exact List.getLast?_concat
+    · simp [Txn.destPosting, h3]
+    · simp only [Txn.destPosting, hclear]
+  | true =>
+    rw [hn] at hneg
+    refine ⟨_, txn.destPosting "Expenses:Unknown",
+      by simp [Txn.toDoubleEntry, Txn.postings, Dec.isSignPositive, Dec.isSignNegative, hneg]; rfl, h1, h2, ?_, ?_, ?_⟩
+    · simp
+    · simp [Txn.destPosting, h3]
+    · simp only [Txn.destPosting, hclear]
+
+/-- **C17_csv_import.**  The same for a whole CSV file: every transaction `csv::import` hands over (model with okane's own
+decoder) is the transaction of one record of the file, and `C17_csv_row` applies to it. -/
+theorem C17_csv_import (pd : String → Option Date) (cap : Captures) (cfg : CsvCfg) (header : List String)
+    (records : List (List String)) (txns : List Txn)
+    (himp : csvImport (cellEnv pd cap) cfg header records = .ok txns) :
+    ∃ fm, FieldMap.tryNew cfg.fields header = .ok fm ∧
+      ∀ t ∈ txns, ∃ rec ∈ records, ∃ v i, readRow (cellEnv pd cap) cfg fm rec = .ok (some v) ∧
+        buildTxn (cellEnv pd cap) cfg fm rec v = .ok (t, i) ∧
+        t.destAccount = (matching cap cfg.rewrite (csvRecord v.payee v.category v.secondaryCommodity)).reverse.findSome?
+          (·.account) ∧
+        t.clearState = (if (matching cap cfg.rewrite (csvRecord v.payee v.category v.secondaryCommodity)).any
+          (fun x => x.account.isSome && !x.pending) then none else some .pending) := by
+  obtain ⟨fm, hfm, hmem⟩ := csvImport_mem _ cfg header records txns himp
+  refine ⟨fm, hfm, ?_⟩
+  intro t ht
+  obtain ⟨rec, hrec, v, i, hrow, hb⟩ := hmem t ht
+  have h := C17_csv_row pd cap cfg fm rec v t i hrow hb
+  simp only at h
+  exact ⟨rec, hrec, v, i, hrow, hb, h.2.1, h.2.2.1⟩
+
+/-! ### non-vacuity: the statement of `Lemmas/ImportCsvCellsUse.lean` (amount cells `-$1,234.50` and `-50.00`; one rule
+`payee ~ shop → Expenses:Shop`) -/
+
+-- row 1 (`shop`, `-$1,234.50`): the rule matches, the record is cleared, the counter-posting is `Expenses:Shop` without mark
+example : matching exCsvCap exCsvCfg.rewrite (csvRecord exCsvRow1.payee exCsvRow1.category exCsvRow1.secondaryCommodity)
+    = exCsvCfg.rewrite := by decide
+example := C17_csv_row exCsvDates exCsvCap exCsvCfg exCsvFm exCsvRec1 exCsvRow1 exCsvTxn1 false exCsv_row1 exCsv_txn1
+example : (exCsvTxn1.toDoubleEntry "Assets:Bank").map' (fun tr => tr.posts.map fun p => (p.account, p.clear))
+    = .ok [("Expenses:Shop", .uncleared), ("Expenses:Commissions", .uncleared), ("Assets:Bank", .uncleared)] := by decide
+-- row 2 (`fx`, `-50.00`, converted): no rule matches, `! Expenses:Unknown`
+example : matching exCsvCap exCsvCfg.rewrite (csvRecord exCsvRow2.payee exCsvRow2.category exCsvRow2.secondaryCommodity)
+    = [] := by decide
+example := C17_csv_row exCsvDates exCsvCap exCsvCfg exCsvFm exCsvRec2 exCsvRow2 exCsvTxn2 false exCsv_row2 exCsv_txn2
+example : (exCsvTxn2.toDoubleEntry "Assets:Bank").map' (fun tr => tr.posts.map fun p => (p.account, p.clear))
+    = .ok [("Expenses:Unknown", .pending), ("Assets:Bank", .uncleared)] := by decide
+example := C17_csv_import exCsvDates exCsvCap exCsvCfg exCsvHeader [exCsvRec1, exCsvRec2] [exCsvTxn1, exCsvTxn2] exCsv_import
 
 end Okane.Import
